@@ -129,9 +129,12 @@ def run(chk: Check, drv: Driver):
     for pr in kruns.enumerate_problems(chk, n_random=(10 if quick else 60), per_assignment=(1 if quick else 3)):
         if pr.problem is None or pr.broadcast or not pr.generate():
             continue
-        sizes, ins = pr.gen_inputs(rng, choices=(1, 2, 3))
-        pool.append((pr, sizes, ins))
-    pool = pool[: (30 if quick else 150)]
+        # several input variants with DIFFERENT dimensions per problem: concurrent calls of one cached kernel
+        # with differently sized operands exercise per-call state that must not be shared
+        for _v in range(3):
+            sizes, ins = pr.gen_inputs(rng, choices=(1, 2, 3, 4, 5))
+            pool.append((pr, sizes, ins))
+    pool = pool[: (45 if quick else 300)]
 
     def call(pr, ins, backend):
         from ..gen import parse_fmt
@@ -171,9 +174,14 @@ def run(chk: Check, drv: Driver):
                 cachable_tensor_method.cache_clear()
             sys.setswitchinterval(1e-6 if r % 2 else old_interval)
             plan = []
+            hot = rng.sample(range(len(pool)), min(len(pool), 3)) if r % 3 == 0 else None
+            hot = [k for k in range(len(pool)) if hot and pool[k][0] is pool[hot[0]][0]] or None if hot else None
             for t in range(n_threads):
                 calls = []
-                for _ in range(rng.randint(2, 5)):
+                for _ in range(rng.randint(2, 5) if hot is None else 12):
+                    if hot is not None:
+                        calls.append((rng.choice(hot), "llvm"))
+                        continue
                     if cffi_ids and rng.random() < 0.15:
                         calls.append((rng.choice(cffi_ids), "cffi"))
                     else:
